@@ -720,6 +720,9 @@ class XMLResource(XMLResourceLoader):
                             ancestors.pop()
                         continue
                     elif level == path_depth:
+                        if not select_all and self._xpath_root is not None:
+                            # the tree is still growing: rebuild the XPath nodes for the selection
+                            self._xpath_root.children.clear()
                         if select_all or node in selector.iter_select(self):
                             yield node
                     if level == lazy_depth:
